@@ -25,6 +25,8 @@ impl<T> Stream for ShellStream<T> {
         self: std::pin::Pin<&mut Self>,
         cx: &mut std::task::Context<'_>,
     ) -> Poll<Option<Self::Item>> {
+        #[cfg(crux_verif)]
+        let _shared_state_scope = crate::verif::LockScope::new("shell_state");
         let mut shared_state = self.shared_state.lock().unwrap();
 
         if let Some(send_request) = shared_state.send_request.take() {
@@ -66,6 +68,8 @@ where
                 return Err(());
             };
 
+            #[cfg(crux_verif)]
+            let _shared_state_scope = crate::verif::LockScope::new("shell_state");
             let mut shared_state = shared_state.lock().unwrap();
 
             sender.send(result);
